@@ -279,6 +279,9 @@ def regex_match(src, v):
 
 
 CMP = {'>': lambda a, b: a > b, '>=': lambda a, b: a >= b, '<': lambda a, b: a < b, '<=': lambda a, b: a <= b}
+# what refutes a comparison of two lists: some pair in the opposite relation (a NaN refutes nothing;
+# this is the rule of the Coq specification KflSemOps.rel_refuted and of the implementation)
+REFUTES = {'>': lambda a, b: a <= b, '>=': lambda a, b: a < b, '<': lambda a, b: a >= b, '<=': lambda a, b: a > b}
 
 
 def op_cmp(op, x, y):
@@ -287,7 +290,7 @@ def op_cmp(op, x, y):
         if is_re(v) or isinstance(v, dict):
             raise Undefined("comparison of a regex / object")
     if isinstance(x, list) and isinstance(y, list):
-        return all(f(to_num(i), to_num(j)) for i in x for j in y)
+        return not any(REFUTES[op](to_num(i), to_num(j)) for i in x for j in y)
     if isinstance(x, list):
         return any(f(to_num(i), to_num(y)) for i in x)
     if isinstance(y, list):
